@@ -284,11 +284,39 @@ func (x *Exec) callWrites0(c *ssa.CallCommon, ws *WriteSet, visiting map[*ssa.Fu
 		fn = x.P.resolveFuncValue(c.Value)
 	}
 	if fn == nil {
-		if x.harmlessFuncValue(c.Value) {
+		if x.harmlessFuncValue(c.Value) || isCancelFunc(c.Value.Type()) {
 			return
 		}
 		ws.all = true
 		ws.why = "dynamic call " + c.Value.Name()
+		return
+	}
+	if fnKey(fn) == "(*sync.Once).Do" && len(c.Args) == 2 {
+		// the done bit of the Once, and whatever the function does
+		func() {
+			defer func() { recover() }()
+			_, root, path, local := x.storeTarget(c.Args[0])
+			if !local {
+				k := "O|" + typeKey(root) + "|" + pathString(root, path)
+				x.keyInfo[k] = compInfo{sort: "(Array Int Bool)"}
+				ws.keys[k] = true
+			}
+		}()
+		var f *ssa.Function
+		switch a := c.Args[1].(type) {
+		case *ssa.MakeClosure:
+			f = a.Fn.(*ssa.Function)
+		case *ssa.Function:
+			f = a
+		default:
+			f = x.P.resolveFuncValue(a)
+		}
+		if f == nil {
+			ws.all = true
+			ws.why = "sync.Once.Do of an unknown function"
+			return
+		}
+		ws.add(x.effectsRec(f, visiting))
 		return
 	}
 	if fnKey(fn) == "encoding/json.Unmarshal" && len(c.Args) == 2 {
@@ -515,6 +543,11 @@ func (x *Exec) modifiesKeys(m string) []string {
 		}
 		if t := x.lookupType(tn); t != nil {
 			return x.keysUnder("E", t, nil)
+		}
+		if strings.HasPrefix(tn, "*") {
+			if t := x.lookupType(strings.TrimPrefix(tn, "*")); t != nil {
+				return x.keysUnder("E", types.NewPointer(t), nil)
+			}
 		}
 		panic(unsupported("modifies: unknown element type %s", tn))
 	}
